@@ -78,7 +78,7 @@ def write_if_changed(path, content):
 
 def run_facts(cfg):
     """Regenerate lean/EgVerif/Gen/Facts<pid>*.lean from the repo's current source.
-    The extractor binary is built per property from main.go + facts_<pid>*.go so that
+    The extractor binary is built per property from main.go + irlib.go + facts_<pid>*.go so that
     properties cannot break each other."""
     pid = cfg["id"]
     src = os.path.join(VERIF, "harness", "factextract")
@@ -87,7 +87,7 @@ def run_facts(cfg):
         return True, ""
     with Lock("facts_" + pid):
         binp = os.path.join(BUILD, "factextract_" + pid)
-        files = ["main.go"] + mine
+        files = ["main.go", "irlib.go"] + mine    # irlib.go: shared micro-translator (notes/IR.md)
         newest = max(os.path.getmtime(os.path.join(src, f)) for f in files)
         if not os.path.exists(binp) or os.path.getmtime(binp) < newest:
             rc, out = run(["go", "build", "-o", binp] + files, cwd=src, env=go_env(), timeout=300)
